@@ -1,5 +1,6 @@
 CONSTANTS NS = 3
  NT = 2
  NF = 0
+ Fill = FALSE
 INIT InitGen
 NEXT EvalGen
